@@ -407,7 +407,7 @@ func (tr *fnTrans) enterBlock(b *ssa.BasicBlock) {
 	}
 	// assume invariants at the header
 	ev := tr.loopEval(li, tr.cur, nil)
-	for _, inv := range tr.autoInvariants(li, phis, nil) {
+	for _, inv := range tr.autoInvariants(li, phis, nil, tr.cur) {
 		tr.assume(inv)
 	}
 	if li.spec != nil {
@@ -432,8 +432,29 @@ func (tr *fnTrans) enterBlock(b *ssa.BasicBlock) {
 }
 
 // autoInvariants: range-index loops keep -1 <= idx < len.
-func (tr *fnTrans) autoInvariants(li *loopInfo, phis []*ssa.Phi, ov map[ssa.Value]Term) []string {
+func (tr *fnTrans) autoInvariants(li *loopInfo, phis []*ssa.Phi, ov map[ssa.Value]Term, st *State) []string {
 	var out []string
+	// frame: heap components that the function may not modify keep their entry value on every object
+	// that existed at entry, also inside loops that write to fresh objects of the same component
+	if !tr.spec.ModAll && tr.spec.Flags["noframe"] == "" && !li.modAll {
+		allowed := map[string]bool{}
+		for _, cn := range tr.specMods(tr.spec) {
+			allowed[cn] = true
+		}
+		var comps []string
+		for cn := range li.modComps {
+			if allowed[cn] || strings.HasPrefix(cn, "L:") || cn == "$clock" || !strings.HasPrefix(tr.compSort[cn], "(Array Ref ") {
+				continue
+			}
+			comps = append(comps, cn)
+		}
+		sort.Strings(comps)
+		for _, cn := range comps {
+			cur := tr.get(st, cn, tr.compSort[cn])
+			old := q(cn + "@0")
+			out = append(out, fmt.Sprintf("(forall ((qv!x Ref)) (! (=> (< (allocT qv!x) %s) (= (select %s qv!x) (select %s qv!x))) :pattern ((select %s qv!x))))", tr.clock(tr.entry), cur, old, cur))
+		}
+	}
 	for _, ph := range phis {
 		if ph.Comment != "rangeindex" {
 			continue
@@ -467,7 +488,7 @@ func (tr *fnTrans) checkInvariants(li *loopInfo, guard string, st *State, ov map
 			phis = append(phis, ph)
 		}
 	}
-	for i, inv := range tr.autoInvariants(li, phis, ov) {
+	for i, inv := range tr.autoInvariants(li, phis, ov, st) {
 		tr.obligeG(guard, "inv", fmt.Sprintf("loop%d.inv.auto%d.%s", li.ord, i, what), inv, token.NoPos, nil, "range index bounds")
 	}
 	if li.spec == nil {
